@@ -26,10 +26,11 @@ const (
 	EdBreak      // introduce or repair a syntax error
 	EdFeature    // change the body of a module (features)
 	EdStyleFlip  // change how an import is written (named/star/require/dynamic ...)
+	EdComment    // comment-only edit: the emitted code stays the same, the source map does not
 	NumEdits
 )
 
-var editNames = []string{"same-length", "version", "touch", "add-import", "drop-import", "new-module", "delete/restore", "rename", "shadow", "nearer-node_modules", "file<->dir", "package.json", "tsconfig", "break/repair", "feature", "import-style"}
+var editNames = []string{"same-length", "version", "touch", "add-import", "drop-import", "new-module", "delete/restore", "rename", "shadow", "nearer-node_modules", "file<->dir", "package.json", "tsconfig", "break/repair", "feature", "import-style", "comment-only"}
 
 // ApplyEdit mutates the model and the disk; it returns a description.
 func ApplyEdit(g G, p *Project, d *verifsim.Disk, inPlace bool) string {
@@ -322,6 +323,10 @@ func ApplyEdit(g G, p *Project, d *verifsim.Disk, inPlace bool) string {
 		m := live(true)
 		m.Feat ^= 1 << uint(g.n(11))
 		desc += fmt.Sprintf(" %s feat=%x", m.Path, m.Feat)
+	case EdComment:
+		m := live(true)
+		m.Note++
+		desc += fmt.Sprintf(" %s note=%d", m.Path, m.Note)
 	case EdStyleFlip:
 		m := live(true)
 		if len(m.Imports) == 0 {
